@@ -11,6 +11,10 @@ mod ctl;
 mod family;
 mod flw;
 mod p_c01;
+mod p_c06;
+mod p_c07;
+mod p_c08;
+mod p_c09;
 mod rng;
 mod util;
 
@@ -22,6 +26,10 @@ use util::{CaseCtx, CaseResult, Verdict};
 fn run_one(prop: &str, ctx: &mut CaseCtx) -> CaseResult {
     match prop {
         "C01" => p_c01::run_case(ctx),
+        "C06" => p_c06::run_case(ctx),
+        "C07" => p_c07::run_case(ctx),
+        "C08" => p_c08::run_case(ctx),
+        "C09" => p_c09::run_case(ctx),
         _ => {
             let mut r = CaseResult::new("unknown-property");
             r.inconclusive(format!("no monitor for {prop}"));
@@ -104,7 +112,22 @@ fn raise_fd_limit() {
     }
 }
 
+/// fixed-offset time zones (no DST in the sampled years), chosen per shard before any thread
+/// exists and before chrono is used for the first time
+fn choose_tz(prop: &str, shard: u64) {
+    if std::env::var("FLMON_KEEP_TZ").is_ok() {
+        return;
+    }
+    let zones = ["UTC", "Asia/Kolkata", "America/Caracas", "Asia/Kathmandu"];
+    let tz = match prop {
+        "C09" | "C06" | "C16" | "C20" => zones[(shard % 4) as usize],
+        _ => "UTC",
+    };
+    std::env::set_var("TZ", tz);
+}
+
 fn run(args: &Args) -> i32 {
+    choose_tz(&args.prop, args.shard);
     raise_fd_limit();
     util::install_panic_hook();
     flw::init_error_channel();
@@ -142,9 +165,27 @@ fn run(args: &Args) -> i32 {
         writeln!(out, "{}", json!({"begin": case})).ok();
         out.flush().ok();
         let t = Instant::now();
-        let r = std::panic::catch_unwind(std::panic::AssertUnwindSafe(|| {
-            run_one(&args.prop, &mut ctx)
-        }));
+        // every case runs on a fresh thread: thread-local state of the crate (formatting
+        // buffers) left behind by a panicking case cannot leak into the next case
+        let prop = args.prop.clone();
+        let joined = std::thread::Builder::new()
+            .name("flmon-case".to_string())
+            .stack_size(8 * 1024 * 1024)
+            .spawn(move || {
+                let r = std::panic::catch_unwind(std::panic::AssertUnwindSafe(|| {
+                    run_one(&prop, &mut ctx)
+                }));
+                (r, ctx)
+            })
+            .expect("cannot spawn case thread")
+            .join();
+        let (r, ctx) = match joined {
+            Ok(x) => x,
+            Err(_) => {
+                eprintln!("case thread died");
+                std::process::exit(3);
+            }
+        };
         let mut res = match r {
             Ok(res) => res,
             Err(_) => {
